@@ -19,7 +19,7 @@ TASK: produce TWO different, independent changes (mutants) to the NON-TEST sourc
  (a) everything still compiles (`go build ./...`), and
  (b) the existing unit tests still pass unedited — run `go test -vet=off -count=1` on every package you touched and on the packages that use it most directly (for example ./chain/... ./vm/... ./snow/... ./internal/... as applicable; x/ and examples/ when you touch them), and
  (c) the bug is REALISTIC (the kind of slip a maintainer could make: an off-by-one or inverted comparison, a dropped or misplaced lock/unlock, two statements reordered, a forgotten case or early return, a stale cached value, a wrong variable) and needs something SPECIFIC to manifest — a particular interleaving, a crash/fault at a particular point, a multi-step sequence of operations, an unusual input/boundary value, or two cooperating sites that each look fine alone. Do NOT produce a change that ordinary use would expose at once (e.g. everything fails) and do not just delete a whole feature. Keep each change small (a few lines).
-For each mutant also write a DEMONSTRATION: a Go test (a new file `zz_seed_demo_test.go` in a suitable package of the worktree, or a small program) that FAILS (or hangs / panics / reports the wrong value) with the change applied and PASSES on the unchanged code. Verify both directions yourself (use `git stash` / `git checkout -- .` to switch; make sure the demo file is not part of the patch).
+For each mutant also write a DEMONSTRATION: a Go test (a new file `zz_seed_demo_test.go` in a suitable package of the worktree, or a small program) that FAILS (or hangs / panics / reports the wrong value) with the change applied and PASSES on the unchanged code. Verify both directions yourself (switch states with `git diff > /tmp/seed-{pid}/p.diff; git checkout -- .` and `git apply /tmp/seed-{pid}/p.diff`; NEVER use `git stash` — the stash is shared with other worktrees of this repository; make sure the demo file is not part of the patch).
 
 DELIVERABLES, for mutant N in {{1,2}}, in directory {d}/SEED_OUT/N/ :
   patch.diff   — `git diff` of the source change only (no test/demo files), relative to the worktree root, applicable with `git apply`
